@@ -3,7 +3,9 @@
 
    A labelled transition system.  One step = one atomic action of the Go code:
 
-     Subscribe        p.subscriberCount.Add(1) ... p.subscribers.Store(id, sub)
+     Subscribe        p.subscriberCount.Add(1) ... p.subscribers.Store(id, sub); the timeout is an integer
+                      number of ticks and may be zero or negative: time.After(d) fires immediately for
+                      d <= 0, so the effective timeout is max(0, d) ([Z.to_nat])
      PubBegin m       a call Publish(m) starts (its Range begins)
      Visit p s        the Range of call p yields subscriber s: the filter is consulted and either the
                       delivery goroutine is spawned ([PSpawned]) or the pair is [PFiltered] and
@@ -36,7 +38,7 @@
    subscriber that was in the map at some moment of the call ([pgone] = the ones already removed when
    the call began cannot be visited); before it returns it has visited every subscriber that was in the
    map during the whole call ([PubEnd] guard). *)
-From Coq Require Import List Arith Bool.
+From Coq Require Import List Arith Bool ZArith.
 Import ListNotations.
 
 Definition upd {A} (f : nat -> A) (k : nat) (v : A) : nat -> A :=
@@ -61,7 +63,7 @@ Section Pub.
   Record sub := mkSub {
     s_cap : nat;                 (* make(chan T, buffer) *)
     s_filt : M -> bool;          (* WithFilter; no filter = fun _ => true *)
-    s_tmo : nat;                 (* WithTimeout, in ticks *)
+    s_tmo : nat;                 (* effective timeout in ticks: max(0, WithTimeout) - time.After(d) fires at once for d <= 0 *)
     s_onF : bool;                (* OnFiltered set? *)
     s_onT : bool;                (* OnTimeout set? *)
     s_buf : list (nat * M);      (* channel buffer: (publish call, message), head = oldest *)
@@ -118,7 +120,7 @@ Section Pub.
             (pair st) (now st) (cbF st) (cbT st) true.
 
   Inductive label :=
-  | Subscribe (cap : nat) (f : M -> bool) (tmo : nat) (onF onT : bool)
+  | Subscribe (cap : nat) (f : M -> bool) (tmo : Z) (onF onT : bool)   (* tmo: WithTimeout in ticks, may be <= 0 *)
   | PubBegin (m : M)
   | Visit (p s : nat)
   | PubEnd (p : nat)
@@ -144,7 +146,7 @@ Section Pub.
   Definition step (st : state) (l : label) : option state :=
     match l with
     | Subscribe c f t oF oT =>
-        Some (mkState (S (nsub st)) (upd (subs st) (nsub st) (new_sub c f t oF oT)) (npub st) (pmsg st)
+        Some (mkState (S (nsub st)) (upd (subs st) (nsub st) (new_sub c f (Z.to_nat t) oF oT)) (npub st) (pmsg st)
                       (popen st) (pt0 st) (pn0 st) (pgone st) (pair st) (now st) (cbF st) (cbT st)
                       (panicked st))
     | PubBegin m =>
